@@ -1,0 +1,245 @@
+//go:build verif
+
+// Contracts for the functions of this package, checked by /verif/fvc (a verification
+// condition generator over go/ssa). This file contains comments only and is compiled
+// only under the build tag "verif"; it changes nothing in the package.
+package formula
+
+// ---------------------------------------------------------------------------
+// Scanner
+// ---------------------------------------------------------------------------
+
+//@ bvtype TokenFlags
+
+// sbase: the position is inside the text. sinv adds the ordering of the three marks.
+//@ spec sbase(s *Scanner) bool := s != nil && 0 <= s.pos && s.pos <= s.end && s.end == len(s.text)
+//@ spec sinv(s *Scanner) bool := sbase(s) && 0 <= s.startPos && s.startPos <= s.tokenPos && s.tokenPos <= s.pos
+
+// The error callback of a scanner is nil or the owning parser's scanError.
+//@ spec owner(s *Scanner) *Parser := ptr(recv(s.onError), *Parser)
+//@ spec cbok(s *Scanner) bool := isnil(s.onError) || (fn(s.onError) == funcid((*Parser).scanError) && owner(s) != nil && owner(s).scanner == s && diagsok(owner(s)))
+//@ spec errd(s *Scanner) bool := !isnil(s.onError) ==> len(owner(s).parseDiagnostics) > 0
+//@ spec nd(s *Scanner) int := len(owner(s).parseDiagnostics)
+
+//@ func (*Scanner).error
+//@   tags [C01,C14]
+//@   requires sbase(s) && cbok(s) && msg != nil
+//@   assigns owner(s).parseDiagnostics
+//@   panics never
+//@   dispatch ErrorHandler: (*Parser).scanError
+//@   ensures errd(s) && nd(s) >= old(nd(s)) && cbok(s)
+
+//@ func (*Scanner).errorAtPos
+//@   tags [C01,C14]
+//@   requires sbase(s) && cbok(s) && msg != nil && pos >= 0 && length >= 0
+//@   assigns owner(s).parseDiagnostics
+//@   panics never
+//@   dispatch ErrorHandler: (*Parser).scanError
+//@   ensures errd(s) && nd(s) >= old(nd(s)) && cbok(s)
+
+// cur(s): the rune at the scanner position; adv(s): the position after it.
+//@ spec cur(s *Scanner) int := urune(s.text[s.pos:])
+//@ spec adv(s *Scanner) int := s.pos + usize(s.text[s.pos:])
+
+//@ func (*Scanner).peekEqual
+//@   tags [C14,C01]
+//@   requires sbase(s)
+//@   panics never
+//@   ensures result == -1 || (s.pos < result && result <= s.end)
+//@   ensures n == 0 ==> ((result >= 0 <==> (s.pos < s.end && cur(s) == ch)) && (result >= 0 ==> result == adv(s)))
+//@   loop 1: invariant s.pos <= start && start <= s.end
+//@           invariant (n == old(n) && start == s.pos) || (n < old(n) && n >= 0)
+//@           decreases s.end - start
+
+//@ func (*Scanner).peekCheck
+//@   tags [C14,C01]
+//@   requires sbase(s)
+//@   dispatch f: IsDigit, (*Scanner).isIdentifierPart, (*Scanner).scanNumber$1, (*Scanner).scanNumber$2, (*Scanner).Scan$1
+//@   panics never
+//@   ensures result == -1 || (s.pos < result && result <= s.end)
+//@   loop 1: invariant s.pos <= start && start <= s.end
+//@           decreases s.end - start
+
+//@ spec isDigitCh(ch int) bool := ch >= 48 && ch <= 57
+//@ spec scanFrame(s *Scanner) bool := sinv(s) && cbok(s)
+
+//@ func (*Scanner).scanNumberFragment
+//@   tags [C14,C01,C12]
+//@   requires scanFrame(s)
+//@   assigns s.pos, s.tokenFlags, owner(s).parseDiagnostics
+//@   panics never
+//@   ensures scanFrame(s) && s.pos >= old(s.pos) && nd(s) >= old(nd(s))
+//@   ensures old(s.pos) < s.end && isDigitCh(old(cur(s))) ==> s.pos > old(s.pos)
+//@   loop 1: invariant scanFrame(s) && old(s.pos) <= start && start <= s.pos && 0 <= underlineStart && underlineStart <= s.pos
+//@           invariant nd(s) >= old(nd(s))
+//@           decreases s.end - s.pos
+
+//@ func (*Scanner).scanNumber
+//@   tags [C14,C01,C12]
+//@   requires scanFrame(s)
+//@   assigns s.pos, s.tokenFlags, s.tokenValue, owner(s).parseDiagnostics
+//@   panics never
+//@   ensures scanFrame(s) && s.pos >= old(s.pos) && nd(s) >= old(nd(s))
+//@   ensures result0 == SK_NumberLiteral && result1 == s.tokenValue
+//@   ensures old(s.pos) < s.end && (isDigitCh(old(cur(s))) || old(cur(s)) == '.') ==> s.pos > old(s.pos)
+
+//@ func (*Scanner).checkForIdentifierStartAfterNumericLiteral
+//@   tags [C14,C01,C12]
+//@   requires scanFrame(s)
+//@   assigns s.pos, s.tokenFlags, owner(s).parseDiagnostics
+//@   panics never
+//@   ensures scanFrame(s) && s.pos == old(s.pos) && nd(s) >= old(nd(s))
+
+//@ func (*Scanner).scanHexDigits
+//@   tags [C14,C01,C13]
+//@   requires scanFrame(s)
+//@   assigns s.pos, s.tokenFlags, owner(s).parseDiagnostics
+//@   panics never
+//@   ensures scanFrame(s) && s.pos >= old(s.pos) && nd(s) >= old(nd(s))
+//@   ensures old(s.pos) < s.end && old(cur(s)) == 92 ==> result == "" && s.pos == old(s.pos)
+//@   loop 1: invariant scanFrame(s) && s.pos >= old(s.pos) && 0 <= underlineStart && underlineStart <= s.pos && nd(s) >= old(nd(s))
+//@           invariant old(s.pos) < s.end && old(cur(s)) == 92 ==> len(valueChars) == 0 && s.pos == old(s.pos) && !isPreviousTokenSeparator
+//@           decreases s.end - s.pos
+
+//@ func (*Scanner).scanExactNumberOfHexDigits
+//@   tags [C14,C01,C13]
+//@   requires scanFrame(s)
+//@   assigns s.pos, s.tokenFlags, owner(s).parseDiagnostics
+//@   panics never
+//@   ensures scanFrame(s) && s.pos >= old(s.pos) && nd(s) >= old(nd(s))
+//@   ensures old(s.pos) < s.end && old(cur(s)) == 92 ==> result == -1 && s.pos == old(s.pos)
+
+//@ func (*Scanner).scanHexadecimalEscape
+//@   tags [C14,C01,C13]
+//@   requires scanFrame(s)
+//@   assigns s.pos, s.tokenFlags, owner(s).parseDiagnostics
+//@   panics never
+//@   ensures scanFrame(s) && s.pos >= old(s.pos) && nd(s) >= old(nd(s))
+
+//@ func (*Scanner).scanEscapeSequence
+//@   tags [C14,C01,C13]
+//@   requires scanFrame(s) && s.pos < s.end
+//@   assigns s.pos, s.tokenFlags, owner(s).parseDiagnostics
+//@   panics never
+//@   ensures scanFrame(s) && s.pos > old(s.pos) && nd(s) >= old(nd(s))
+
+//@ func (*Scanner).scanString
+//@   tags [C14,C01,C13]
+//@   requires scanFrame(s) && s.pos < s.end
+//@   assigns s.pos, s.tokenFlags, owner(s).parseDiagnostics
+//@   panics never
+//@   ensures scanFrame(s) && s.pos > old(s.pos) && nd(s) >= old(nd(s))
+//@   loop 1: invariant scanFrame(s) && old(s.pos) < start && start <= s.pos && nd(s) >= old(nd(s))
+//@           decreases s.end - s.pos
+
+//@ func (*Scanner).peekUnicodeEscape
+//@   tags [C14,C01]
+//@   requires scanFrame(s) && s.pos < s.end && cur(s) == 92
+//@   assigns s.pos, s.tokenFlags, owner(s).parseDiagnostics
+//@   panics never
+//@   ensures scanFrame(s) && s.pos == old(s.pos) && nd(s) >= old(nd(s)) && result == -1
+
+//@ func (*Scanner).scanIdentifierParts
+//@   tags [C14,C01]
+//@   requires scanFrame(s)
+//@   assigns s.pos, s.tokenFlags, owner(s).parseDiagnostics
+//@   panics never
+//@   ensures scanFrame(s) && s.pos >= old(s.pos) && nd(s) >= old(nd(s))
+//@   loop 1: invariant scanFrame(s) && old(s.pos) <= start && start <= s.pos && nd(s) >= old(nd(s))
+//@           decreases s.end - s.pos
+
+//@ func (*Scanner).Scan
+//@   tags [C14,C01]
+//@   requires scanFrame(s)
+//@   assigns s.pos, s.startPos, s.tokenPos, s.token, s.tokenValue, s.tokenFlags, owner(s).parseDiagnostics
+//@   panics never
+//@   ensures scanFrame(s) && s.startPos == old(s.pos) && nd(s) >= old(nd(s))
+//@   ensures result == s.token
+//@   ensures s.token == SK_EndOfFile <==> s.tokenPos == s.end
+//@   ensures s.token != SK_EndOfFile ==> s.pos > s.tokenPos
+//@   ensures s.token == SK_EndOfFile ==> s.pos == s.end
+//@   loop 1: invariant sbase(s) && cbok(s) && s.startPos == old(s.pos) && s.startPos <= s.pos && nd(s) >= old(nd(s))
+//@           decreases s.end - s.pos
+//@   loop 2: invariant scanFrame(s) && s.startPos == old(s.pos) && nd(s) >= old(nd(s)) && s.tokenPos < s.pos
+//@           invariant tar@L2 == -1 || (s.pos <= tar@L2 && tar@L2 <= s.end)
+//@           decreases tar@L2 >= 0 ? s.end - tar@L2 + 1 : 0
+
+//@ func (*Scanner).peek
+//@   tags [C14,C01]
+//@   requires s != nil && pos >= 0
+//@   panics never
+//@   ensures result1 >= 0 && result1 <= 4
+
+// ---------------------------------------------------------------------------
+// Parser diagnostics plumbing
+// ---------------------------------------------------------------------------
+
+// every recorded diagnostic is a real object
+//@ spec diagsok(p *Parser) bool := forall i int :: 0 <= i && i < len(p.parseDiagnostics) ==> p.parseDiagnostics[i] != nil
+
+//@ func (*Parser).scanError
+//@   tags [C01,C14]
+//@   requires p != nil && p.scanner != nil && sbase(p.scanner) && diagsok(p)
+//@   requires message != nil && pos >= -1 && length >= 0
+//@   assigns p.parseDiagnostics
+//@   panics never
+//@   ensures len(p.parseDiagnostics) > 0 && len(p.parseDiagnostics) >= len(old(p.parseDiagnostics)) && diagsok(p)
+
+//@ func (*Parser).errorAtPosition
+//@   tags [C01]
+//@   requires p != nil && message != nil && start >= 0 && length >= 0 && diagsok(p)
+//@   assigns p.parseDiagnostics
+//@   panics never
+//@   ensures len(p.parseDiagnostics) > 0 && len(p.parseDiagnostics) >= len(old(p.parseDiagnostics)) && diagsok(p)
+
+//@ func CreateFileDiagnostic
+//@   tags [C01]
+//@   requires start >= 0 && length >= 0 && msg != nil
+//@   panics never
+//@   ensures result != nil && fresh(result) && result.Start == start && result.Length == length
+//@   ensures result.Code == msg.Code && result.Category == msg.Category && result.File == file
+
+//@ func formatStringFromArgs
+//@   tags [C01]
+//@   panics never
+//@   loop 1: invariant rangeindex >= -1 && rangeindex < max(len(args), 1)
+//@           decreases len(args) - rangeindex
+
+//@ func toString
+//@   tags [C01]
+//@   panics never
+
+// ---------------------------------------------------------------------------
+// Character classes
+// ---------------------------------------------------------------------------
+
+// A range table is a sorted sequence of [lo,hi] pairs; inTable is membership.
+//@ spec sortedTable(arr []rune) bool := len(arr) >= 2 && len(arr) % 2 == 0 && (forall i int, j int :: 0 <= i && i <= j && 0 <= j && j < len(arr) ==> arr[i] <= arr[j])
+//@ spec inTable(code int, arr []rune) bool := exists k int :: 0 <= k && 2*k+1 < len(arr) && arr[2*k] <= code && code <= arr[2*k+1]
+
+// The two ES5 tables of this package are such tables (ground-evaluated on the constants
+// of the initialiser; sound because nothing outside init writes them).
+//@ globalfact sortedTable(unicodeES5IdentifierStart)
+//@ globalfact sortedTable(unicodeES5IdentifierPart)
+
+//@ func LookupInUnicodeMap
+//@   tags [C14,C01]
+//@   requires sortedTable(arrMap)
+//@   panics never
+//@   ensures result == inTable(code, arrMap)
+//@   loop 1: invariant 0 <= lo && lo <= hi && hi <= len(arrMap) && lo % 2 == 0 && hi % 2 == 0
+//@           invariant forall k int :: 0 <= k && 2*k+1 < len(arrMap) && (2*k < lo || 2*k >= hi) ==> !(arrMap[2*k] <= code && code <= arrMap[2*k+1])
+//@           decreases hi - lo
+
+//@ spec isIdStart(ch int) bool := (ch >= 'A' && ch <= 'Z') || (ch >= 'a' && ch <= 'z') || ch == '$' || ch == '_' || (ch > 127 && inTable(ch, unicodeES5IdentifierStart))
+//@ spec isIdPart(ch int) bool := (ch >= 'A' && ch <= 'Z') || (ch >= 'a' && ch <= 'z') || (ch >= '0' && ch <= '9') || ch == '$' || ch == '_' || (ch > 127 && inTable(ch, unicodeES5IdentifierPart))
+
+//@ func IsIdentifierStart
+//@   tags [C14,C01]
+//@   panics never
+//@   ensures result == isIdStart(ch)
+
+//@ func IsIdentifierPart
+//@   tags [C14,C01]
+//@   panics never
+//@   ensures result == isIdPart(ch)
